@@ -90,3 +90,84 @@ Proof.
   unfold parse_content_and_signature. destruct ext; rewrite run_bind; destruct (run f i); try reflexivity;
     rewrite run_bind; destruct (run _ rem); reflexivity.
 Qed.
+
+(* ---------- RFC 6962 Signed Certificate Timestamps ---------- *)
+Lemma log_id_ok s rest o : slen s = 32 ->
+  run parse_log_id (mkS o (bytes s ++ rest)) = Ok (mkS (o + 32) rest) (mkS o (bytes s)).
+Proof.
+  intros H. unfold parse_log_id. rewrite run_bind, run_take_n by (unfold slen in H; exact H).
+  unfold slen; cbn [bytes]. unfold slen in H. rewrite H. reflexivity.
+Qed.
+
+Lemma ct_extensions_is : parse_ct_extensions = length_data be_u16.
+Proof. reflexivity. Qed.
+
+Lemma sct_body_roundtrip s rest o : wf_sct s ->
+  exists v', run parse_ct_signed_certificate_timestamp_content (mkS o (enc_sct_body s ++ rest)) =
+               Ok (mkS (o + lenN (enc_sct_body s)) rest) v' /\ strip_sct v' = strip_sct s.
+Proof.
+  intros [Hv [Hid [Hts [Hext [Hsig [Halg Hlen]]]]]].
+  unfold parse_ct_signed_certificate_timestamp_content, enc_sct_body, fits16 in *. repeat rewrite <- app_assoc.
+  rt_step. rewrite run_bind, log_id_ok by exact Hid. rt_step.
+  rewrite ct_extensions_is. rt_step.
+  destruct (signed_roundtrip (sct_sig s) rest (o + 1 + 32 + 8 + 2 + lenN (bytes (sct_ext s))) Hsig) as [d' [E Hd]].
+  destruct (ds_alg (sct_sig s)) as [[h sg]|] eqn:Ea; [|congruence].
+  rewrite run_bind. rewrite E. rewrite run_ret.
+  eexists. split; [apply f_equal2; [f_equal; unfold slen in *; solve_off | reflexivity]|].
+  unfold strip_sct; cbn [sct_version sct_id sct_timestamp sct_ext sct_sig]. rewrite Hd. reflexivity.
+Qed.
+
+Theorem sct_roundtrip s rest o : wf_sct s ->
+  exists v', run parse_ct_signed_certificate_timestamp (mkS o (enc_sct s ++ rest)) =
+               Ok (mkS (o + lenN (enc_sct s)) rest) v' /\ strip_sct v' = strip_sct s.
+Proof.
+  intros Hw. pose proof Hw as [_ [_ [_ [_ [_ [_ Hlen]]]]]].
+  unfold parse_ct_signed_certificate_timestamp, map_parser, enc_sct.
+  rewrite run_bind, run_vec16 by exact Hlen.
+  destruct (sct_body_roundtrip s [] (o + 2) Hw) as [v' [E Hs]]. rewrite app_nil_r in E.
+  rewrite run_on, E. eexists. split; [apply f_equal2; [f_equal; solve_off | reflexivity] | exact Hs].
+Qed.
+
+Definition sct_eqv (a b : SCT) : Prop := strip_sct a = strip_sct b.
+Lemma sct_rt : roundtrips parse_ct_signed_certificate_timestamp enc_sct wf_sct sct_eqv.
+Proof. intros v rest o Hw. exact (sct_roundtrip v rest o Hw). Qed.
+Lemma sct_ne : nonempty_enc enc_sct wf_sct.
+Proof. intros v _. unfold enc_sct. rewrite lenN_vec16. lia. Qed.
+Lemma sct_stops_nil o : stops parse_ct_signed_certificate_timestamp (mkS o []).
+Proof.
+  unfold stops, parse_ct_signed_certificate_timestamp, map_parser, length_data. rewrite !run_bind.
+  unfold be_u16. rewrite run_beu. unfold slen; cbn [bytes lenN]. destruct (N.leb_spec (N.of_nat 2) 0); [lia | exact I].
+Qed.
+
+(* the list: u16 total length, then the entries; every field of every entry, in order *)
+Theorem sct_list_roundtrip l rest o :
+  (forall s, In s l -> wf_sct s) -> lenN (cat enc_sct l) < 65536 ->
+  exists vs', run parse_ct_signed_certificate_timestamp_list (mkS o (enc_sct_list l ++ rest)) =
+                Ok (mkS (o + lenN (enc_sct_list l)) rest) vs' /\ Forall2 sct_eqv vs' l.
+Proof.
+  intros Hw Hl. unfold parse_ct_signed_certificate_timestamp_list, enc_sct_list, vec16, map_parser.
+  repeat rewrite <- app_assoc. rt_step. rewrite run_bind, run_take_n by reflexivity.
+  destruct (many0_cmpl_rt _ _ _ _ sct_rt sct_ne l (o + 2) [] Hw) as [vs' [E HF]].
+  { apply sct_stops_nil. }
+  unfold encs in E. rewrite app_nil_r in E. unfold cat. rewrite run_on, E.
+  eexists. split; [apply f_equal2; [f_equal; solve_off | reflexivity] | exact HF].
+Qed.
+
+(* a list whose declared length exceeds the input never yields a value *)
+Theorem sct_list_overlong n body o : n < 65536 -> lenN body < n ->
+  run parse_ct_signed_certificate_timestamp_list (mkS o (u16 n ++ body)) = Incomplete (Size (n - lenN body)).
+Proof.
+  intros Hn Hb. unfold parse_ct_signed_certificate_timestamp_list, map_parser. rt_step.
+  rewrite !run_bind, run_take. unfold slen; cbn [bytes]. destruct (N.leb_spec n (lenN body)); [lia|].
+  rewrite mk_needed_pos by lia. reflexivity.
+Qed.
+
+(* an entry whose declared length exceeds what is left of the enclosing list yields no value:
+   the list parser stops before it *)
+Theorem sct_entry_overlong n body o : n < 65536 -> lenN body < n ->
+  stops parse_ct_signed_certificate_timestamp (mkS o (u16 n ++ body)).
+Proof.
+  intros Hn Hb. unfold stops, parse_ct_signed_certificate_timestamp, map_parser, length_data.
+  rewrite !run_bind, run_u16_enc by exact Hn. rewrite run_take. unfold slen; cbn [bytes].
+  destruct (N.leb_spec n (lenN body)); [lia | exact I].
+Qed.
